@@ -11,8 +11,11 @@ def run(chk):
     wrapper_contracts.wrapper_obligations(chk, "C18", want=("C18", "C06", "C07"))
     from . import misc_contracts
     misc_contracts.input_payload_contract(chk, "C18")   # the contract of get_input_payload used at the wrapper's call site, against its body
+    misc_contracts.error_from_exception_contract(chk, "C18")   # a FAILED outcome carries a string message whatever the exception was built from
     wrapper_contracts.client_errors_wrapped(chk, "C18")
     wrapper_contracts.control_signals_not_exceptions(chk, "C18")
     wrapper_contracts.checkpoint_error_classification(chk, "C18")
     from . import batcher
-    batcher.check_consumer(chk, "C18")  # the safety causes of "no outcome at all": every blocked caller is woken when the API fails
+    batcher.check_consumer(chk, "C18")
+    from . import state_contracts
+    state_contracts.completion_event_contract(chk, "C18")   # a woken caller sees the failure (error stored before the event is set): a failed checkpoint never ends in SUCCEEDED  # the safety causes of "no outcome at all": every blocked caller is woken when the API fails
